@@ -9,44 +9,10 @@
 (* Each edit breaks its rule by construction (it introduces a fresh name or *)
 (* a fresh statement that is ill-formed on its own).                        *)
 (***************************************************************************)
-EXTENDS EvySyntax, Json, TLC
+EXTENDS EvySeeds, Json, TLC
 
 CONSTANT Tier
 VARIABLE mut
-
-Num(n) == ENum(I(n))
-Pr(xs) == SCall(ECallB("print", xs))
-Xv == EVar("x", T_num)
-Raw(ps) == [k |-> "raw", ps |-> ps]        \* a line given as text (for stray tokens)
-
-Sites == {"top0", "top1", "if", "elif", "else", "while", "for", "nested", "proc", "func", "handler"}
-LoopSites == {"while", "for", "nested"}
-FuncSites == {"proc", "func"}
-
-\* the seed program with the statements ins[site] inserted at every site
-Seed(ins) ==
-  LET I2(s) == ins[s]
-      proc == FuncDef("proc", <<Param("n", T_num)>>, <<>>, T_none, <<Pr(<<EVar("n", T_num)>>)>> \o I2("proc"))
-      fn == FuncDef("fn", <<Param("n", T_num)>>, <<>>, T_num, I2("func") \o <<SRetV(EBin("+", EVar("n", T_num), Num(1)), T_num)>>)
-      h == Handler("key", <<Param("k", T_str)>>, <<Pr(<<EVar("k", T_str)>>)>> \o I2("handler"))
-  IN [Program(
-       <<Pr(<<EStr(<<115>>)>>)>> \o I2("top0") \o
-       <<SInfer("x", Num(1)),
-         SIf(<<EBin(">", Xv, Num(0)), EBin("<", Xv, Num(0))>>,
-             << <<Pr(<<Num(1)>>)>> \o I2("if"), <<Pr(<<Num(2)>>)>> \o I2("elif") >>,
-             << <<Pr(<<Num(3)>>)>> \o I2("else") >>),
-         SWhile(EBin("<", Xv, Num(3)), <<SAsg(Xv, EBin("+", Xv, Num(1)))>> \o I2("while")),
-         SFor("i", "num", <<Num(2)>>, <<Pr(<<EVar("i", T_num)>>)>> \o I2("for")),
-         SFor("j", "num", <<Num(2)>>, <<SIf(<<EBin("==", EVar("j", T_num), Num(0))>>, << <<Pr(<<Num(4)>>)>> \o I2("nested") >>, <<>>)>>),
-         SCall(ECallU("proc", FSig(proc), <<Num(1)>>)),
-         Pr(<<ECallU("fn", FSig(fn), <<Num(2)>>)>>),
-         SCall(ECallB("move", <<Num(10), Num(10)>>)), SCall(ECallB("line", <<Num(20), Num(20)>>)),
-         SInfer("s", ECallB("read", <<>>)), Pr(<<EVar("s", T_str)>>),
-         SCall(ECallB("sleep", <<ENum(Fin(1, 8))>>))>> \o I2("top1"),
-       <<proc, fn>>, <<h>>) EXCEPT !.fl = TRUE]
-
-NoIns == [s \in Sites |-> <<>>]
-At(site, ss) == [NoIns EXCEPT ![site] = ss]
 
 \* ---- the rules: statements whose insertion breaks the rule, and where they apply
 T(cp) == [cp |-> cp]
